@@ -36,7 +36,7 @@ RULE = ("(a) cases: (line sequence chunk, configuration); one execution per data
 ASSUMPTIONS = ["finite value alphabets", "output paths are always fresh (the library prompts before overwriting)"]
 REQUIRED_CLASSES = ['ineligible-line-skipped', 'all-eligible', 'selector-cuts', 'without-model-fluxes', 'with-model-fluxes', 'mode-2d', 'mode-3d', 'format-v2', 'history-depth-2',
                     'form-path', 'form-object', 'form-list', 'op-plot', 'op-filter_output', 'op-write_parameters', 'op-write_parameter_ranges', 'op-extract_parameters',
-                    'nan-inf-record-roundtrip', 'longer-file', 'law-in-other-unit', 'op-plot_params_1d', 'op-plot_params_2d', 'op-plot-convolved', 'no-trailing-newline', 'selector-keeps-nothing']
+                    'nan-inf-record-roundtrip', 'longer-file', 'law-in-other-unit', 'op-plot_params_1d', 'op-plot_params_2d', 'op-plot-convolved', 'no-trailing-newline', 'selector-keeps-nothing', 'data-as-open-file']
 TIMEOUT = {'quick': 900, 'thorough': 3600}
 
 KINDS = {'A': (1, 1, 1), 'B': (1, 4, 3), 'C': (1, 0, 9), 'D': (0, 2, 3)}
@@ -161,7 +161,13 @@ def _part_a(ctx, case, rec, d):
         out = os.path.join(d, 'out_%d.fitinfo' % si)
         sub = {'lines': seq}
         try:
-            fit(data, list(B3), theta, md, out, n_data_min=cfg['n_data_min'], output_format=sel, output_convolved=cfg['conv'], **kw)
+            if si % 3 == 2:
+                # the data may also be handed over as an open file
+                with open(data, 'r') as fh_in:
+                    fit(fh_in, list(B3), theta, md, out, n_data_min=cfg['n_data_min'], output_format=sel, output_convolved=cfg['conv'], **kw)
+                rec.cls('data-as-open-file')
+            else:
+                fit(data, list(B3), theta, md, out, n_data_min=cfg['n_data_min'], output_format=sel, output_convolved=cfg['conv'], **kw)
             fin = FitInfoFile(out, 'r')
             recs = list(fin)
             meta = fin.meta
